@@ -18,6 +18,14 @@ A(h, l) == [h |-> h, l |-> l]
 AddrAdd(a, k) == LET s == a.l + k IN [h |-> (a.h + s \div 65536) % 65536, l |-> s % 65536]
 Cell(a, b) == [h |-> a.h, l |-> a.l, b |-> b]
 Cells(a, d) == {Cell(AddrAdd(a, i - 1), d[i]) : i \in 1..Len(d)}
+\* TLC's UNION is quadratic in the size of the result (65 KiB runs take minutes): sets of cells are
+\* built as one image over (index of the piece) \X (offset in the piece) instead
+IMax(a, b) == IF a > b THEN a ELSE b
+IMin(a, b) == IF a < b THEN a ELSE b
+RECURSIVE MaxLenFrom(_, _, _)
+MaxLenFrom(ds, i, m) == IF i > Len(ds) THEN m ELSE MaxLenFrom(ds, i + 1, IMax(m, Len(ds[i])))
+\* ds = sequence of byte sequences: all <<piece, offset>> pairs
+Pairs(ds) == {p \in (1..Len(ds)) \X (1..MaxLenFrom(ds, 1, 0)) : p[2] <= Len(ds[p[1]])}
 AddrLe(x, y) == x.h < y.h \/ (x.h = y.h /\ x.l <= y.l)
 
 RECURSIVE SumSeq(_, _)
@@ -25,7 +33,9 @@ SumSeq(s, i) == IF i > Len(s) THEN 0 ELSE s[i] + SumSeq(s, i + 1)
 Sum(s) == SumSeq(s, 1)
 
 \* image recorded from the assembler: sequence of runs [a |-> [h, l], d |-> bytes]
-RunsImage(runs) == UNION {Cells(runs[i].a, runs[i].d) : i \in 1..Len(runs)}
+RunData(runs) == [j \in 1..Len(runs) |-> runs[j].d]
+RunIdx(runs) == Pairs(RunData(runs))
+RunsImage(runs) == {Cell(AddrAdd(runs[p[1]].a, p[2] - 1), runs[p[1]].d[p[2]]) : p \in RunIdx(runs)}
 AddrSet(img) == {A(c.h, c.l) : c \in img}
 
 -----------------------------------------------------------------------------
@@ -37,22 +47,20 @@ HexWellFormed(r) == /\ "bad" \notin DOMAIN r
                     /\ (r.typ = 4 => r.len = 2 /\ r.ah = 0 /\ r.al = 0)
                     /\ (r.typ = 1 => r.len = 0)
 
-\* fold: [upper, cells]
-RECURSIVE HexFold(_, _, _, _)
-HexFold(rs, i, upper, acc) ==
-  IF i > Len(rs) THEN acc
-  ELSE LET r == rs[i] IN
-    IF r.typ = 4 THEN HexFold(rs, i + 1, r.data[1] * 256 + r.data[2], acc)
-    ELSE IF r.typ = 0
-      THEN LET n == acc \cup Cells(A(upper, r.ah * 256 + r.al), r.data)
-           IN IF n = n THEN HexFold(rs, i + 1, upper, n) ELSE n
-    ELSE HexFold(rs, i + 1, upper, acc)
+\* up[i] = the upper 16 address bits in force at record i (set by the type 4 records before it)
+RECURSIVE HexUppers(_, _, _)
+HexUppers(rs, i, upper) ==
+  IF i > Len(rs) THEN <<>>
+  ELSE LET u == IF rs[i].typ = 4 THEN rs[i].data[1] * 256 + rs[i].data[2] ELSE upper
+       IN IF u = u THEN <<u>> \o HexUppers(rs, i + 1, u) ELSE <<>>
 
 HexValid(rs) == /\ Len(rs) >= 1
                 /\ \A i \in 1..Len(rs) : HexWellFormed(rs[i])
                 /\ rs[Len(rs)].typ = 1
                 /\ \A i \in 1..(Len(rs) - 1) : rs[i].typ # 1
-HexDecode(rs) == HexFold(rs, 1, 0, {})
+HexDecode(rs) == LET up == HexUppers(rs, 1, 0) IN
+                 {Cell(AddrAdd(A(up[p[1]], rs[p[1]].ah * 256 + rs[p[1]].al), p[2] - 1), rs[p[1]].data[p[2]])
+                    : p \in {q \in Pairs([j \in 1..Len(rs) |-> rs[j].data]) : rs[q[1]].typ = 0}}
 
 -----------------------------------------------------------------------------
 (* Motorola S-record.  rec = [t, count, addr (bytes, big endian), data, cks] *)
@@ -66,7 +74,8 @@ SrecAddr(r) == IF Len(r.addr) = 2 THEN A(0, r.addr[1] * 256 + r.addr[2])
                ELSE IF Len(r.addr) = 3 THEN A(r.addr[1], r.addr[2] * 256 + r.addr[3])
                ELSE A(r.addr[1] * 256 + r.addr[2], r.addr[3] * 256 + r.addr[4])
 SrecValid(rs) == \A i \in 1..Len(rs) : SrecWellFormed(rs[i])
-SrecDecode(rs) == UNION {Cells(SrecAddr(rs[i]), rs[i].data) : i \in {j \in 1..Len(rs) : rs[j].t \in {1, 2, 3}}}
+SrecDecode(rs) == {Cell(AddrAdd(SrecAddr(rs[p[1]]), p[2] - 1), rs[p[1]].data[p[2]])
+                     : p \in {q \in Pairs([j \in 1..Len(rs) |-> rs[j].data]) : rs[q[1]].t \in {1, 2, 3}}}
 SrecEntries(rs) == {SrecAddr(rs[i]) : i \in {j \in 1..Len(rs) : rs[j].t \in {7, 8, 9}}}
 
 -----------------------------------------------------------------------------
@@ -75,8 +84,9 @@ Le24(b) == b[1] + 256 * b[2] + 65536 * b[3]
 WdcValid(f) == /\ f.magic = 90        \* 'Z'
                /\ f.rest = 0
                /\ \A i \in 1..Len(f.blocks) : Le24(f.blocks[i].n) = Len(f.blocks[i].data)
-WdcDecode(f) == UNION {Cells(A(f.blocks[i].a[3], f.blocks[i].a[1] + 256 * f.blocks[i].a[2]), f.blocks[i].data)
-                        : i \in 1..Len(f.blocks)}
+WdcAddr(b) == A(b.a[3], b.a[1] + 256 * b.a[2])
+WdcDecode(f) == {Cell(AddrAdd(WdcAddr(f.blocks[p[1]]), p[2] - 1), f.blocks[p[1]].data[p[2]])
+                   : p \in Pairs([j \in 1..Len(f.blocks) |-> f.blocks[j].data])}
 
 -----------------------------------------------------------------------------
 (* UF2.  blk = [m0, m1, flags, addr, size, no, total, family (all [h,l]), data (476 bytes), m2] *)
@@ -118,8 +128,12 @@ Exact(dec, img) == dec = img
 Far == 100000000
 Diff(a, base) == LET dh == a.h - base.h IN
                  IF dh > 16000 \/ dh < -16000 THEN Far ELSE dh * 65536 + (a.l - base.l)
-RunIdx(runs) == UNION {{<<j, i>> : i \in 1..Len(runs[j].d)} : j \in 1..Len(runs)}
-Hits(runs, base, n) == {p \in RunIdx(runs) : LET k == Diff(runs[p[1]].a, base) + p[2] IN k >= 1 /\ k <= n}
+\* the bytes <<run, offset>> of the runs that fall into the chunk [base + 1, base + n]
+Hits(runs, base, n) ==
+  {<<q[1], q[2] - Diff(runs[q[1]].a, base)>> :
+     q \in {r \in (1..Len(runs)) \X (1..n) : LET i == r[2] - Diff(runs[r[1]].a, base) IN i >= 1 /\ i <= Len(runs[r[1]].d)}}
+InChunk(runs, p, base, n) == LET k == Diff(runs[p[1]].a, base) + p[2] IN k >= 1 /\ k <= n
+Covered(runs, p, chunks) == \E c \in 1..Len(chunks) : InChunk(runs, p, chunks[c].base, Len(chunks[c].D))
 ChunkOk(runs, base, D) ==
   LET hs == Hits(runs, base, Len(D))
       K  == {Diff(runs[p[1]].a, base) + p[2] : p \in hs}
@@ -129,7 +143,7 @@ TotalBytes(runs) == Cardinality(RunIdx(runs))
 \* chunks: sequence of [base, D]
 ChunksOk(runs, chunks) ==
   /\ \A c \in 1..Len(chunks) : ChunkOk(runs, chunks[c].base, chunks[c].D)
-  /\ Cardinality(UNION {Hits(runs, chunks[c].base, Len(chunks[c].D)) : c \in 1..Len(chunks)}) = TotalBytes(runs)
+  /\ \A p \in RunIdx(runs) : Covered(runs, p, chunks)
 \* nothing beyond [low, high rounded up to the granule]
 SpanLen(low, high, g) == LET n == Diff(high, low) + 1 IN ((n + g - 1) \div g) * g
 WithinSpan(chunks, low, high, g) ==
@@ -185,9 +199,8 @@ NotPico(r) == ~(r.a.h = 4351 /\ r.a.l >= 65280)
 ReadBackOk(ev) ==
   LET rb     == IF ev.type = "uf2" THEN SelectSeq(ev.rb, NotPico) ELSE ev.rb
       chunks == RbChunks(rb)
-      hit    == UNION {Hits(ev.img, chunks[c].base, Len(chunks[c].D)) : c \in 1..Len(chunks)}
   IN /\ ev.rr = 0
      /\ \A c \in 1..Len(chunks) : ChunkOk(ev.img, chunks[c].base, chunks[c].D)
      \* the recorder elides zero runs: a written byte it did not report reads back as 0
-     /\ \A p \in RunIdx(ev.img) \ hit : ev.img[p[1]].d[p[2]] = 0
+     /\ \A p \in RunIdx(ev.img) : Covered(ev.img, p, chunks) \/ ev.img[p[1]].d[p[2]] = 0
 =============================================================================
